@@ -225,7 +225,13 @@ def run_scenario(chk, sc, cfgseed, recipe, flavour="sched", workers=None, pressu
     d = chk.tmp_reuse()
     os.makedirs(d)
     src, out = os.path.join(d, "in"), os.path.join(d, "out")
-    reg = gamma.write_plotfile(src, ap, cfg_, values=thermo_values(cfgseed, fields) if thermo else None)
+    # one input in four has level-header extrema that are NOT the extrema of its data (rounded, stale): legal, and the output's
+    # rows must still be the true extrema of what is written
+    def stale(lv, mins, maxs):
+        return ({b: [v - 1.0 for v in row] for b, row in mins.items()} if isinstance(mins, dict) else [[v - 1.0 for v in row] for row in mins],
+                {b: [v + 1.0 for v in row] for b, row in maxs.items()} if isinstance(maxs, dict) else [[v + 1.0 for v in row] for row in maxs])
+    reg = gamma.write_plotfile(src, ap, cfg_, values=thermo_values(cfgseed, fields) if thermo else None,
+                               mm_override=stale if cfgseed % 4 == 1 else None)
     before = alpha.tree_digest(src)
     rarg, kw, newnames = chef_kwargs(recipe, pressure)
     if serial is None:
